@@ -12,7 +12,7 @@ META = {
             "whitelist, the per-key ordered transfer relation (keys lower-cased when appended, base values before appended ones, "
             "byte-exact values, no splitting at commas), base64 (padded or unpadded) and a model of the sending / receiving "
             "transport. TLC enumerates every metadata list of <= 2 entries over 7 keys (plain, -bin, te, :path, user-agent, "
-            "upper-case, illegal character) x 4 values (empty, 'a', bytes 00 FF, 'a,b') x {base map, appended}, lists over illegal keys ending in -bin (K-bin, k@-bin, 'k k-bin'), appended pairs in one or in separate AppendToOutgoingContext calls, and the header lists "
+            "upper-case, illegal character) x 4 values (empty, 'a', bytes 00 FF, 'a,b') x {base map, appended}, lists over illegal keys ending in -bin (K-bin, k@-bin, 'k k-bin'), values with leading / trailing / only spaces, appended pairs in one or in separate AppendToOutgoingContext calls, and the header lists "
             "a raw peer sends (padded / unpadded base64, duplicates, reserved names) plus lists over the keys host / connection, checks the mechanism against the clauses "
             "I_Transfer, I_NoLeak, I_Reject, I_Peer (negative control: a sender that does not drop reserved names), the "
             "enumerated cases are executed end to end (real client <-> real server over bufconn: request metadata, response "
